@@ -428,7 +428,12 @@ func c27Close(a, b float64) bool {
 }
 
 // c27TablesEqual: an absent series and a series without any point are the same thing.
-func c27TablesEqual(a, b c27Table, n int) (bool, string, int) {
+func c27TablesEqual(a, b c27Table, n int) (bool, string, int) { return c27TablesEqualSlack(a, b, n, 0) }
+
+// c27TablesEqualSlack: slack is an absolute allowance used only by the large-magnitude family (values near
+// 1.7e9): there the rounding of a correct two-pass computation depends on the summation order and is of the
+// order of ulp(value); it is 0 for every other family, whose comparison is unchanged.
+func c27TablesEqualSlack(a, b c27Table, n int, slack float64) (bool, string, int) {
 	keys := map[string]bool{}
 	for k := range a {
 		keys[k] = true
@@ -451,7 +456,7 @@ func c27TablesEqual(a, b c27Table, n int) (bool, string, int) {
 			if rb != nil {
 				vb = rb[i]
 			}
-			if !c27Close(va, vb) {
+			if !c27Close(va, vb) && !(slack > 0 && math.Abs(va-vb) <= slack) {
 				return false, k, i
 			}
 		}
@@ -637,9 +642,17 @@ func c27Requested(sc *c27Scale, times []int64, nSlots int) (lo, hi int) {
 
 // c27MatchesReference: is the engine's table one of the acceptable evaluations of n?
 func c27MatchesReference(sc *c27Scale, n *c27Node, data []c27RawSeries, got *c27RunResult) (ok bool, key string, ti int, want c27Table) {
+	slack := 0.0
+	for _, s := range data {
+		for _, v := range s.vals {
+			if a := math.Abs(v); a > 1e6 && a*1e-12 > slack {
+				slack = a * 1e-12
+			}
+		}
+	}
 	for ci, conv := range c27Convs() {
 		ref := c27Materialise(c27RefEval(sc, n, data, conv), got.times)
-		eq, k, i := c27TablesEqual(got.table, ref, len(got.times))
+		eq, k, i := c27TablesEqualSlack(got.table, ref, len(got.times), slack)
 		if eq {
 			return true, "", 0, ref
 		}
@@ -1052,6 +1065,24 @@ func TestVerifC27(t *testing.T) {
 	for i := range winData {
 		for _, n := range windowed {
 			cases = append(cases, c27Case{n, &winData[i]})
+		}
+	}
+	// large-magnitude family: the same instant aggregations over series whose values are unix-time sized
+	// (1758499194 + {1,2,5}): an operator that is only right for small numbers (cancellation in a one-pass
+	// variance, float32 intermediates, integer overflow) shows here and nowhere else
+	bigData := c27Datasets(3, 2, 1, instReps[2:4])
+	for i := range bigData {
+		for s := range bigData[i].series {
+			vals := append([]float64{}, bigData[i].series[s].vals...)
+			for j, v := range vals {
+				if !math.IsNaN(v) {
+					vals[j] = 1758499194 + v
+				}
+			}
+			bigData[i].series[s].vals = vals
+		}
+		for _, n := range instant {
+			cases = append(cases, c27Case{n, &bigData[i]})
 		}
 	}
 	singleCases := len(cases)
